@@ -47,3 +47,46 @@ Theorem C13_server_login_state :
     server_login_deserialize CS (server_login_serialize st) = Ok st.
 Proof. exact @reload_server_login. Qed.
 Print Assumptions C13_server_login_state.
+
+
+(* ---------------------------------------------------------------- at the 20 concrete suites
+   The theorems above that assume GroupLaws, restated for each of the 20 suites with CurveLaws as the only hypothesis
+   (HashLaws, CodecLaws, SizeLaws and the encoding half of GroupLaws are proved for them: Theory/GroupSplit.v). *)
+From OKE Require Import CodecsConcrete GroupSplit Concrete20.
+
+Definition C13_server_setup_statement {E Sc Pk Sk} (CS : Suite E Sc Pk Sk) : Prop :=
+  forall tape setup rest,
+    server_setup_new CS tape = Ok (setup, rest) ->
+    server_setup_deserialize CS (private_key_ops (ke CS)) (server_setup_serialize CS (private_key_ops (ke CS)) setup) = Ok setup.
+Theorem C13_server_setup_at_each_of_the_20_suites : all_suites (fun _ _ _ _ CS => CurveLaws CS -> C13_server_setup_statement CS).
+Proof. apply at_the_20_suites_g. exact C13_server_setup. Qed.
+Print Assumptions C13_server_setup_at_each_of_the_20_suites.
+
+Definition C13_client_registration_state_statement {E Sc Pk Sk} (CS : Suite E Sc Pk Sk) : Prop :=
+  forall tape pw st m rest,
+    ve CS (o_h2g (oprf CS) pw (dst_hash_to_group (oprf CS))) ->
+    client_registration_start CS tape pw = Ok (st, m, rest) ->
+    client_registration_deserialize CS (client_registration_serialize CS st) = Ok st /\
+    registration_request_deserialize CS (registration_request_serialize CS m) = Ok m.
+Theorem C13_client_registration_state_at_each_of_the_20_suites : all_suites (fun _ _ _ _ CS => CurveLaws CS -> C13_client_registration_state_statement CS).
+Proof. apply at_the_20_suites_g. exact C13_client_registration_state. Qed.
+Print Assumptions C13_client_registration_state_at_each_of_the_20_suites.
+
+Definition C13_password_file_statement {E Sc Pk Sk} (CS : Suite E Sc Pk Sk) : Prop :=
+  forall st tape pw rr ids ksf upload ek spk rest,
+    client_registration_finish CS st tape pw rr ids ksf = Ok (upload, ek, spk, rest) ->
+    registration_upload_deserialize CS (registration_upload_serialize CS (server_registration_finish upload))
+      = Ok (server_registration_finish upload).
+Theorem C13_password_file_at_each_of_the_20_suites : all_suites (fun _ _ _ _ CS => CurveLaws CS -> C13_password_file_statement CS).
+Proof. apply at_the_20_suites. exact C13_password_file. Qed.
+Print Assumptions C13_password_file_at_each_of_the_20_suites.
+
+Definition C13_client_login_state_statement {E Sc Pk Sk} (CS : Suite E Sc Pk Sk) : Prop :=
+  forall tape pw st m rest,
+    ve CS (o_h2g (oprf CS) pw (dst_hash_to_group (oprf CS))) ->
+    client_login_start CS tape pw = Ok (st, m, rest) ->
+    client_login_deserialize CS (client_login_serialize CS st) = Ok st /\
+    credential_request_deserialize CS (credential_request_serialize CS m) = Ok m.
+Theorem C13_client_login_state_at_each_of_the_20_suites : all_suites (fun _ _ _ _ CS => CurveLaws CS -> C13_client_login_state_statement CS).
+Proof. apply at_the_20_suites_g. exact C13_client_login_state. Qed.
+Print Assumptions C13_client_login_state_at_each_of_the_20_suites.
